@@ -257,9 +257,12 @@ def apply_op(m, lcf, ab, slots, o, x, y, z, w, step_no):
                 return 'add_attacker assigned an id that another attacker holds'
             ab.attackers.append({'obj': t, 'id': t.id, 'name': t.name, 'eps': []})
     elif o == 6:
-        valid = bool(ab.attackers)
-        ti = (z % len(ab.attackers)) if valid else 0
+        foreign = bool(ab.attackers) and y == 1     # an attachment that is not in the model but carries the id of one that is
+        valid = bool(ab.attackers) and not foreign
+        ti = (z % len(ab.attackers)) if ab.attackers else 0
         t = ab.attackers[ti]['obj'] if valid else AttackerAttachment(name='ghost')
+        if foreign:
+            t.id = ab.attackers[ti]['id']
         try:
             m.remove_attacker(t)
         except Exception as e:
@@ -313,7 +316,7 @@ def body_hist(cube, **kw):
         o = idx(kw['o%d' % s], len(OPS))
         # arguments are read lazily
         x = idx(kw['x%d' % s], 5) if o in (0, 1, 2, 3, 4, 5, 7, 8) else 0
-        y = idx(kw['y%d' % s], 4) if o in (0, 2, 4, 7, 8) else 0
+        y = idx(kw['y%d' % s], 4) if o in (0, 2, 4, 6, 7, 8) else 0
         z = idx(kw['z%d' % s], 2) if o in (0, 6, 7, 8) else 0
         ops.append((o, x, y, z))
     with notrace(), reclimit():
@@ -382,7 +385,7 @@ def queries(tier):
             w['o1'] = 9 if o == 1 else (o + 1) % len(OPS)
         wit.append(({'k': k}, w))
     qs = []
-    if tier == 'quick':
+    if True:
         # removal followed by re-adding the removed id and name (no trace in the reserved ids and names)
         ps2 = [B(b) for b in ('x2', 'l01', 'l12', 'l00', 'pk', 'att', 'ps')] + [I('x0', 0, 4)] + \
               [I('o1', 0, len(OPS) - 1), I('x1', 0, 4), I('y1', 0, 3), I('z1', 0, 1)]
@@ -423,11 +426,12 @@ def queries(tier):
                               '(two associations of one type: membership tests must not rely on structural equality)'))
     return qs + [Query(name='hist', body=body_hist, params=ps, cubes=[{'k': k}], split=['o0', 'x0'] if k == 1 else ['o0', 'o1'],
                        pre=['not ps or (l00 and x2 and not pk and not l12)', 'not nm or (not l12 and not l00 and not pk)', 'not att2 or (not l12 and not l00 and not pk and not nm)', 'not un or (not nm and not att2 and not l00 and not pk and not l12)'] if k == 1 else
-                       ['x2 and att and not l12 and not pk', 'not ps or l00', 'not nm or not l00', 'not att2 or (not l00 and not nm)', 'not un or (not nm and not att2 and not l00)', 'ps + nm + att2 + un <= 1'],
+                       ['x2 and att and l01 and not l12 and not pk', 'not ps or l00', 'not nm or not l00', 'not att2 or (not l00 and not nm)', 'not un or (not nm and not att2 and not l00)', 'ps + nm + att2 + un <= 1'],
                   timeout=600 if tier == 'quick' else 1700, witnesses=wit,
                   bound='language L_MINI (type N, self-association PQ(p,q)); pre-state from 7 bits (third asset, links 0-1, 1-2, self-link 0-0 alone or with other members in both fields, one association '
                         'holding two assets in one field, attacker with an entry point), built through the API; then every sequence of %d operation(s) from %s '
-                        'with valid and invalid arguments (asset ids %s, duplicate names, removed / foreign objects)' % (k, OPS, AIDS))]
+                        'with valid and invalid arguments (asset ids %s, duplicate names, removed / foreign objects)%s' % (
+                            k, OPS, AIDS, '' if k == 1 else '; for 2 operations the pre-states are the 6 that have the third asset, the link 0-1 and the attacker'))]
 
 
 META = {
